@@ -7,7 +7,10 @@ Generator: functional catalogue (``vlib.zoo_funcs``: every class with a
 distance, separable sums, infimal convolution; depth <= 2) x spaces (rn,
 const-/array-weighted rn, 2-d rn, uniform_discr with cell volume != 1 and
 with boundary nodes, power spaces, matrix-field spaces, non-power products)
-x points.
+x points.  Three-step chains around an argument scaling
+(translation -> scaling, scaling -> translation, (f + c) -> scaling,
+perturbation -> scaling; innermost functional linear in half of the cases)
+are drawn on purpose (depth 3).
 
 Oracle (clauses):
   fy          f(x) + f*(y) >= <x, y> on random pairs (inf allowed)
@@ -120,7 +123,9 @@ REQUIRED_STRATA = [
     'cls:Zero', 'cls:QuadraticForm', 'cls:IndicatorBox',
     'cls:IndicatorNonnegativity', 'cls:GroupL1Norm',
     'cls:IndicatorGroupL1UnitBall', 'cls:NuclearNorm',
-    'cls:IndicatorNuclearNormUnitBall',
+    'cls:IndicatorNuclearNormUnitBall', 'cls:LinearForm',
+    'chain:trans-scale', 'chain:scale-trans', 'chain:sum-scale',
+    'chain:pert-scale', 'linear:flagged',
 ]
 
 
@@ -142,7 +147,7 @@ def _strategy(draw, tier):
     else:
         sd, fd = draw(Z.product_space_with_funcs('conj'))
     if pick != 'product':
-        depth = draw(st.sampled_from([0, 1, 1, 2]))
+        depth = draw(st.sampled_from([0, 1, 1, 2, 2, 3]))
         fd = draw(Z.func_descs(sd, 'conj', depth))
         # non-positive left scaling: convex_conj must raise
         if draw(st.integers(0, 24)) == 0:
@@ -346,6 +351,10 @@ def _check_node(B, pts, top, fd, ctx, probe=True):
     for b in B.nodes():
         for k in sorted(b.region):
             strata.append('region:{}={}'.format(k, b.region[k]))
+    if top and fd.get('chain'):
+        strata.append('chain:' + fd['chain'])
+    if f.is_linear:
+        strata.append('linear:flagged')
     notes = {}
     finite_hits = [0]
 
